@@ -9,7 +9,7 @@ def exh_cases(maxn, seqlen):
 
 
 EXH_QUICK = dict(maxn=4, seqlen=6)
-EXH_THOROUGH = dict(maxn=5, seqlen=7)
+EXH_THOROUGH = dict(maxn=4, seqlen=7)
 
 SPEC = dict(
     prop="C19", level="exploration", default_harness="buffers",
@@ -36,13 +36,14 @@ SPEC = dict(
              args={"maxn": {"quick": EXH_QUICK["maxn"], "thorough": EXH_THOROUGH["maxn"]},
                    "seqlen": {"quick": EXH_QUICK["seqlen"], "thorough": EXH_THOROUGH["seqlen"]}},
              require_stats=["read.get_several_source_reads", "read.get_served_from_buffer", "read.refused_oversized",
+                            "read.refill_after_compaction", "read.refill_behind_data",
                             "write.passthrough_checked", "write.append_forced_flush", "write.flush_wrote",
                             "read.stats_checked", "write.stats_checked"],
              timeout=3600),
-        dict(name="rand", flavour="asan", cases={"quick": 20000, "thorough": 2000000},
+        dict(name="rand", flavour="asan", cases={"quick": 20000, "thorough": 1000000},
              args={"nreq": 1000},
              require_stats=["read.get_several_source_reads", "read.get_served_from_buffer", "read.refused_oversized",
-                            "read.refused_null", "write.refused_null", "write.passthrough_checked",
+                            "read.refill_after_compaction", "read.refill_behind_data", "read.refused_null", "write.refused_null", "write.passthrough_checked",
                             "write.append_forced_flush", "write.flush_wrote", "write.flush_empty"],
              timeout=7200),
     ],
